@@ -795,9 +795,10 @@ def step(w: World, op: dict):
                     if "index" in op:
                         cur = t.args.get(k)
                         i = op["index"]
-                        if not isinstance(cur, list) or not 0 <= i <= len(cur):
+                        if not isinstance(cur, list) or not -len(cur) - 1 <= i <= len(cur):
                             return "skip", None, sig
-                        pos = "oob" if i == len(cur) else "idx"
+                        # negative positions are ordinary Python list positions (seq_get / list.pop accept them)
+                        pos = "oob" if (i == len(cur) or i < -len(cur)) else "neg" if i < 0 else "idx"
                         ow = bool(op.get("overwrite", True))
                         sig = f"set({ak},{pos}{'' if ow else ',ins'},{vk})"
                         t.set(k, val, index=i, overwrite=ow)
@@ -962,7 +963,8 @@ def gen_op(w: World, rng, opid: int) -> dict:
         cur = t.args.get(k)
         if isinstance(cur, list) and rng.random() < 0.6:
             val = _pick_val(w, rng, t, live_nodes, allow_list=True, allow_scalar=False)
-            op.update(op="set", t=nm(t), k=k, val=val, index=rng.randint(0, len(cur)), overwrite=rng.random() < 0.6)
+            index = rng.randint(-len(cur) - 1, -1) if rng.random() < 0.15 else rng.randint(0, len(cur))
+            op.update(op="set", t=nm(t), k=k, val=val, index=index, overwrite=rng.random() < 0.6)
         else:
             op.update(op="set", t=nm(t), k=k, val=_pick_val(w, rng, t, live_nodes, allow_list=isinstance(cur, list)))
     elif r < 0.54:
@@ -1312,6 +1314,11 @@ def exh_alphabet():
     for i in range(4):
         ops.append({"op": "set", "t": "s0.1", "k": "expressions", "val": {"v": "none"}, "index": i})
         ops.append({"op": "set", "t": "s0.1", "k": "expressions", "val": _F, "index": i})
+    ops += [{"op": "set", "t": "s0.1", "k": "expressions", "val": {"v": "none"}, "index": -1},
+            {"op": "set", "t": "s0.1", "k": "expressions", "val": {"v": "none"}, "index": -2},
+            {"op": "set", "t": "s0.1", "k": "expressions", "val": _F, "index": -1},
+            {"op": "set", "t": "s0.1", "k": "expressions", "val": _F, "index": -2, "overwrite": False},
+            {"op": "set", "t": "s0.1", "k": "expressions", "val": _L2, "index": -3}]
     ops += [{"op": "set", "t": "s0.1", "k": "expressions", "val": _F, "index": 0, "overwrite": False},
             {"op": "set", "t": "s0.1", "k": "expressions", "val": _F, "index": 2, "overwrite": False},
             {"op": "set", "t": "s0.1", "k": "expressions", "val": _L2, "index": 1},
@@ -1457,6 +1464,10 @@ def translate(chk) -> str:
         "replaceClearsPointers": _replace_clears(_method(tree, "Expression", "replace")),
         "eqIsHashEquality": _eq_is_hash(_method(tree, "Expression", "__eq__")),
     }
+    # not a required shape: which of the two modelled variants of `set(k, None, index<0)` the source has
+    set_src = _ast.unparse(_method(tree, "Expression", "set")) if _method(tree, "Expression", "set") else ""
+    neg_norm = "if index < 0" in set_src
+    chk.cov["negative_index_normalised"] = neg_norm
     for k, v in facts.items():
         if not v:
             chk.broken.append({"kind": "translator", "what": f"C08 translator: structure changed: {k} no longer recognised in sqlglot/expressions/core.py"})
@@ -1468,6 +1479,9 @@ def translate(chk) -> str:
              "import SqlglotModel.Model.Tree", "namespace SqlglotModel.Generated.C08"]
     for k, v in facts.items():
         lines.append(f"def {k} : Bool := {'true' if v else 'false'}")
+    lines.append("/-- does `set` normalise a negative index before removing a list element? (model variant selector, see "
+                 "Properties/C08 `negative_index_breaks_links`) -/")
+    lines.append(f"def negativeIndexNormalised : Bool := {'true' if neg_norm else 'false'}")
     lines.append("/-- classes with `_hash_raw_args = True` -/")
     lines.append("def rawClasses : List String := " + _lean_list(_lean_str(r) for r in raw))
     lines.append("end SqlglotModel.Generated.C08")
@@ -1505,6 +1519,35 @@ class RealHeap:
         self.ids[id(o)] = len(self.reg)
         self.reg.append(o)
 
+    def _mk_lit(self, txt):
+        o = self.cls["literal"]()
+        self._register(o)
+        o.set("this", txt)
+        o.set("is_string", False)
+        return o
+
+    def user_fun(self, name):
+        """the Python twins of `builtinFun` in Model/Tree.lean (fresh nodes are registered in allocation order)"""
+        def fun(node):
+            in_list = node.index is not None
+            if name == "lit" and node.key == "column":
+                return self._mk_lit("0")
+            if name == "wrap" and node.key == "literal":
+                lit = self._mk_lit("7")
+                p = self.cls["paren"]()
+                self._register(p)
+                p.set("this", lit)
+                return p
+            if name == "drop" and node.key == "literal" and in_list:
+                return None
+            if name == "dup" and node.key == "literal" and in_list:
+                return [self._mk_lit("8"), self._mk_lit("9")]
+            if name == "mut" and node.key == "paren":
+                node.set("this", self._mk_lit("5"))
+                return node
+            return node
+        return fun
+
     def value(self, v):
         if v is None:
             return None
@@ -1532,6 +1575,16 @@ class RealHeap:
             if kind == "set":
                 self.reg[op["n"]].set(op["k"], self.value(op["v"]), index=op["idx"], overwrite=op["ow"])
                 return "ok"
+            if kind == "setneg":
+                self.reg[op["n"]].set(op["k"], None, index=-op["back"])
+                return "ok"
+            if kind == "transform":
+                self.reg[op["n"]].transform(self.user_fun(op["fun"]), copy=False)
+                return "ok"
+            if kind == "rc":
+                from sqlglot import exp as _exp
+                _exp.replace_children(self.reg[op["n"]], self.user_fun(op["fun"]))
+                return "ok"
             if kind == "append":
                 self.reg[op["n"]].append(op["k"], self.item(op["it"]))
                 return "ok"
@@ -1549,17 +1602,17 @@ class RealHeap:
             if kind == "copy":
                 c = self.reg[op["n"]].copy()
                 first = len(self.reg)
+                # registry order = allocation order of __deepcopy__: the root first; popping a pair allocates the copies of
+                # its children in args order (pushing them), and the LAST pushed pair is popped next
+                self._register(c)
                 stack = [c]
-                while stack:  # pre-order, args in dict order, list items in order
+                while stack:
                     o = stack.pop()
-                    self._register(o)
-                    kids = []
                     for v in o.args.values():
-                        if isinstance(v, Expr):
-                            kids.append(v)
-                        elif type(v) is list:
-                            kids.extend(x for x in v if isinstance(x, Expr))
-                    stack.extend(reversed(kids))
+                        kids = [v] if isinstance(v, Expr) else [x for x in v if isinstance(x, Expr)] if type(v) is list else []
+                        for kid in kids:
+                            self._register(kid)
+                            stack.append(kid)
                 return f"copy {first}"
             raise _HarnessError(f"unknown op {kind}")
         except _HarnessError:
@@ -1696,7 +1749,12 @@ ALPHABET = [
     {"op": "replace", "n": 5, "v": {"n": 8}}, {"op": "pop", "n": 5}, {"op": "pop", "n": 6}, {"op": "pop", "n": 1},
     {"op": "replace", "n": 1, "v": {"n": 9}}, _set(0, "expression", None), _set(9, "this", {"n": 8}),
     {"op": "copy", "n": 3}, _set(0, "this", {"n": 8}),
+    {"op": "setneg", "n": 3, "k": "expressions", "back": 1},
+    {"op": "transform", "n": 0, "fun": "wrap"}, {"op": "transform", "n": 3, "fun": "dup"}, {"op": "transform", "n": 0, "fun": "lit"},
+    {"op": "transform", "n": 0, "fun": "drop"}, {"op": "transform", "n": 9, "fun": "mut"},
+    {"op": "rc", "n": 3, "fun": "wrap"}, {"op": "rc", "n": 0, "fun": "lit"}, {"op": "rc", "n": 3, "fun": "dup"},
 ]
+FUNS = ["id", "lit", "wrap", "drop", "dup", "mut"]
 
 
 def _opkey(op):
@@ -1823,6 +1881,12 @@ def random_history(rng, max_len, wild=0.08):
             idx = rng.randint(0, len(L) + (1 if rng.random() < 0.3 else 0))
             if idx > len(L):
                 idx = len(L)
+            if rng.random() < 0.12:
+                # set(k, None, index=-back): only where every renumbered element keeps a non-negative index (the model's
+                # index field is a Nat), or out of range
+                back = rng.choice([b for b in range(1, len(L) - 1)] + [len(L) + 1])
+                emit({"op": "setneg", "n": tgt, "k": k, "back": back})
+                break  # terminal: see the exhaustive part
             vr = rng.random()
             if vr < 0.3:
                 v = None
@@ -1854,9 +1918,13 @@ def random_history(rng, max_len, wild=0.08):
             if v is not None and "l" in v and o.index is None and o.parent is not None:
                 continue  # "replace the parent" recursion: not modelled
             res = emit({"op": "replace", "n": tgt, "v": v})
-        elif r < 0.78:
+        elif r < 0.74:
             res = emit({"op": "pop", "n": tgt})
-        elif r < 0.90:
+        elif r < 0.80:
+            if real.has_cycle_from(tgt) or nreg > 60:
+                continue
+            res = emit({"op": "transform" if rng.random() < 0.6 else "rc", "n": tgt, "fun": rng.choice(FUNS)})
+        elif r < 0.91:
             res = emit({"op": "hash", "n": tgt})
         elif r < 0.96:
             res = emit({"op": "eq", "a": tgt, "b": rng.randrange(nreg)})
@@ -1916,6 +1984,15 @@ def correspond(chk) -> list:
         nonlocal n_exh
         for op in alpha:
             seq = prefix + [op]
+            if op["op"] == "setneg":
+                # the model's index field is a Nat: keep to calls after which every renumbered element has index >= 0
+                rh = RealHeap()
+                for o in BASE + prefix:
+                    rh.apply(o)
+                cur = rh.reg[op["n"]].args.get(op["k"])
+                n_cur = len(cur) if type(cur) is list else 0
+                if not (op["back"] <= n_cur - 2 or op["back"] > n_cur):
+                    continue
             outs = _run_real(BASE + seq)
             if len(outs) < len(BASE) + len(seq):
                 continue  # an earlier op of the prefix failed (already compared there)
@@ -1928,6 +2005,8 @@ def correspond(chk) -> list:
             if outs[-1].startswith("fail"):
                 chk.count("corr-res:fail")
                 continue
+            if op["op"] == "setneg":
+                continue  # on the unrepaired code the heap is now inconsistent (indexes may go negative next): terminal
             if depth + 1 < L:
                 lines.append(_json.dumps({"op": "save", "slot": depth + 1})); expect.append("ok|"); where.append((hi, -1))
                 rec(seq, depth + 1)
